@@ -28,6 +28,15 @@ pub fn values(f: Family, k: Kind, refs: &Refs, level: u8) -> (Vec<Vec<u8>>, Vec<
 			valid.push(buf.clone());
 		}
 	}
+	// in-strings with a special scalar (white space trim() strips, BOM, bidi / zero-width controls,
+	// block boundaries) first, last and in the middle
+	if !bt {
+		for x in crate::model::domains::boundary_and_special_scalars() {
+			for tpl in ["X", "Xa", "aX", "aXa", "s:X", "Xs:a", "//X", "/X", "?X", "#X"] {
+				all.push(tpl.replace('X', &x.to_string()).into_bytes());
+			}
+		}
+	}
 	valid.extend(super::c07::domain(f, k, refs, level));
 	valid.sort();
 	valid.dedup();
@@ -106,6 +115,21 @@ pub fn run(ctx: &Ctx) -> Report {
 			r
 		});
 		total.count("cross_type_route_inputs", r.states);
+		total.merge(r);
+		let fr_iri = FamRefs::new(refs, Family::Iri);
+		let mut r = Report::new();
+		let mut vs = Vec::new();
+		for t in domains::special_scalar_texts() {
+			if !fr_iri.valid(Kind::RiRef, &t) {
+				continue;
+			}
+			r.states += 1;
+			r.evaluations += super::c13::conv_case_for("C14", &t, fr_uri.valid(Kind::Ri, &t), fr_uri.valid(Kind::RiRef, &t), syntax::split(&t).scheme.is_some(), &mut vs);
+			for v in vs.drain(..) {
+				r.violate(v);
+			}
+		}
+		total.count("special_scalar_texts", r.states);
 		total.merge(r);
 	}
 	total.distinct_nontrivial = total.states;
